@@ -1,7 +1,7 @@
 (* C03 property theorems (fine-grained model C03_Model.v: every interleaving of any number of
    threads on any number of vCPUs).  Statements that are not proved yet are kept as Definitions. *)
 From Coq Require Import ZArith List.
-From PV Require Import Base.U64 C04.C04_Heap C03.C03_Model C03.C03_WF C03.C03_Proofs C03.C03_Queue C03.C03_Notify C03.C03_Result C03.C03_IntrRace C03.C03_Locked C03.C03_NeverBad.
+From PV Require Import Base.U64 C04.C04_Heap C03.C03_Model C03.C03_WF C03.C03_Proofs C03.C03_Queue C03.C03_Notify C03.C03_Result C03.C03_IntrRace C03.C03_Locked C03.C03_NeverBad C03.C03_NoIntr.
 Import ListNotations.
 Local Open Scope Z_scope.
 
@@ -140,10 +140,12 @@ Theorem c03_never_bad : forall nv kinds home progs s, Reach nv kinds home progs 
 Proof. exact never_bad. Qed.
 Print Assumptions c03_never_bad.
 
-(* ---- statements not proved yet (kept at full strength) ---------------------------------------- *)
-(* "notified => returns 0" (the converse of the first half of c03_cv_wait_result) is NOT an invariant of the
-   faithful model when interrupts are present: thread_interrupt's unlocked `out:` path can overwrite the -1
-   of a notification (see notes/C03.md, Findings); it holds for interrupt-free programs (not mechanised). *)
-Definition cv_notified_returns_0 : Prop := forall nv kinds home progs s t c l n,
-  Reach nv kinds home progs s -> (forall k, ~ exists j e, In (OInterrupt j e) (progs k)) ->
-  tpc (th s t) = PWaitSlept c l -> wk (th s t) = WNotified n -> err (th s t) = -1.
+(* cv_wait_result, other direction, on the property's own quantifier domain (programs without
+   thread_interrupt): a waiter picked by notify_one / notify_all resumes with errno -1: wait() returns 0.
+   (With interrupts: refuted above.) *)
+Theorem c03_cv_notified_returns_0 : forall nv kinds home progs s t c l n,
+  interrupt_free progs -> Reach nv kinds home progs s ->
+  tpc (th s t) = PWaitSlept c l -> wk (th s t) = WNotified n ->
+  let '(ret, en, _) := take_err s t in translate ret en = (0, 0).
+Proof. exact cv_notified_returns_0. Qed.
+Print Assumptions c03_cv_notified_returns_0.
